@@ -220,7 +220,8 @@ pub fn run_ops(bytes: &[u8], sched: &[usize], visible0: usize, opts: Opts, tbits
                                 let rb = oi.width as usize * samples(oi.color_type as u8) * oi.bit_depth as usize;
                                 tr.delivered.push(Delivered { fctl, pixels: buf[..n].to_vec(), via, line: oi.line_size, row_bits: rb });
                                 cur.started = false;
-                                Ok(format!("ok {}x{} {}:{} line={} n={} h={}", oi.width, oi.height, oi.color_type as u8, oi.bit_depth as u8, oi.line_size, oi.buffer_size(), hash(&buf[..n])))
+                                let fc = rd.info().frame_control.as_ref().map(fctl_str).unwrap_or_else(|| "none".into());
+                                Ok(format!("ok {}x{} {}:{} line={} n={} h={} fctl={}", oi.width, oi.height, oi.color_type as u8, oi.bit_depth as u8, oi.line_size, oi.buffer_size(), hash(&buf[..n]), fc))
                             }
                         }
                     }
@@ -285,7 +286,7 @@ pub fn run_ops(bytes: &[u8], sched: &[usize], visible0: usize, opts: Opts, tbits
                             }
                         }
                         cur.rows_done += 1;
-                        Ok(format!("some {} len={} h={}", desc, data.len(), hash(&data)))
+                        Ok(format!("some {} len={} h={} idx={} fctl={}", desc, data.len(), hash(&data), cur.rows_done - 1, cur.fctl))
                     }
                 }
             }
